@@ -200,6 +200,12 @@ def linked_full_nonzero_only(spec, assigns) -> bool:
     return True
 
 
+def linked_mixed_only(spec, assigns) -> bool:
+    """True iff every given architecture individually has one of the two known shapes (a partially active link group, or
+    a fully active one at a non-zero index): one graph can lose architectures of both shapes at once."""
+    return bool(assigns) and all(linked_partial_only(spec, [a]) or linked_full_nonzero_only(spec, [a]) for a in assigns)
+
+
 def linked_forced_is_first(gp) -> bool:
     """State probe: is the FIRST choice (in the processor's own choice order) of some LINKED constraint marked forced,
     i.e. left without a design variable?  The library keeps the variable on the first one; the known fast-encoder
